@@ -8,17 +8,29 @@ MANIFEST = dict(
    note="PARTIAL. The Go memory model, the sync primitives, the scheduler and deadlock freedom are not modelled; 'every result equals the run-alone result' is only checked by the -race runs (9 hand-written scenarios + one generic scenario per shared location with callable accessor functions + one targeted scenario per conflict of the regenerated table; 8 goroutines; thorough 16), which observe only the schedules that happen. The lock-set translator is a syntactic approximation (locks held = Lock/RLock seen earlier in the same function and not yet released; shared objects = package-level maps, map fields of structs carrying a mutex, atomics, fields assigned inside once.Do) over 7 files; accesses reached through other files are not listed. Meta() on non-string types writes the registry under its lock (race-free) but changes the receiver (C08 finding). Trusted: Lean kernel, axioms propext/Classical.choice/Quot.sound, go/ast translator, Go race detector.",
    design="DESIGN.md §5 C14", category="proof")
 
-MODULES = ["Gozod.Proofs.C14"]
+MODULES = ["Gozod.Proofs.C14", "Gozod.Proofs.C14Order", "Gozod.Proofs.C14Lin"]
 THEOREMS = [
     "Gozod.C14.c14_racefree", "Gozod.C14.c14_racefree_table", "Gozod.C14.c14_schema_ops_read_only", "Gozod.C14.conflicts_complete",
     "Gozod.C14.locales_unsynchronised", "Gozod.C14.lazy_cache_unsynchronised",
+    # lock order / deadlock freedom (Proofs/C14Order.lean)
+    "Gozod.C14.progress", "Gozod.C14.wr_step", "Gozod.C14.no_deadlock", "Gozod.C14.wr_append", "Gozod.C14.wr_segments",
+    "Gozod.C14.disciplined_wr", "Gozod.C14.lockorder_disciplined", "Gozod.C14.lockorder_no_nesting", "Gozod.C14.cb_under_lock_sites",
+    "Gozod.C14.table_no_deadlock", "Gozod.C14.range_reenter_undisciplined", "Gozod.C14.range_reenter_stuck",
+    # linearizability of the registry / configuration protocols (Proofs/C14Lin.lean)
+    "Gozod.C14.search_sound", "Gozod.C14.search_complete", "Gozod.C14.linearizable_iff", "Gozod.C14.atomic_linearizable",
+    "Gozod.C14.reads_run_alone", "Gozod.C14.run_alone_key", "Gozod.C14.store_fresh_is_atomic", "Gozod.C14.setconfig_lost_update",
+    "Gozod.C14.cas_success_is_atomic", "Gozod.C14.cas_failure_no_effect",
 ]
 GEN = os.path.join(C.LEAN, "Gozod", "Gen", "LockSets.lean")
+GEN_ORDER = os.path.join(C.LEAN, "Gozod", "Gen", "LockOrder.lean")
 EXPECTED_LOCS = ["core.Registry.meta", "core.globalConfig", "core.modifierPriorityCounter", "regex.macCache",
                  "types.ZodLazyInternals.innerType", "locales.DefaultLocales"]
 
 
 def key(op, impl, M, S):
+    b = C.op_body(op).split(" ")
+    if b[1] == "hist":
+        return impl.split(" ")[0] + ":" + b[2]          # nonlin:config, nonlin:registry
     return "race:" + C.op_body(op).split(" ")[2] if impl.startswith("RACE") else impl.split(" ")[0] + ":" + C.op_body(op).split(" ")[2]
 
 
@@ -32,9 +44,23 @@ def regenerate(res):
     if rc != 0:
         return "translator failed: " + out[-2000:]
     new = open(os.path.join(d, "LockSets.lean")).read()
+    new_order = open(os.path.join(d, "LockOrder.lean")).read()
     res._accessors_src = open(os.path.join(d, "accessors_gen.go")).read()
+    res._constructors_src = open(os.path.join(d, "constructors_gen.go")).read()
     res.coverage["accessor_functions"] = res._accessors_src.count("{fn:")
+    res.coverage["constructor_functions"] = res._constructors_src.count("{fn:")
+    try:
+        res.coverage["library_scan"] = json.load(open(os.path.join(d, "scan.json")))
+    except Exception:
+        pass
     shutil.rmtree(d, ignore_errors=True)
+    if res.coverage.get("library_scan", {}).get("package_level_vars", 0) < 100 or res._constructors_src.count("{fn:") < 50:
+        return "translator sees too little of the library (package-level vars / constructors): layout changed?"
+    old_order = open(GEN_ORDER).read() if os.path.exists(GEN_ORDER) else ""
+    if new_order != old_order:
+        with open(GEN_ORDER, "w") as f: f.write(new_order)
+        res.notes.append("Gen/LockOrder.lean regenerated (content changed)")
+    res.coverage["lockorder_functions"] = new_order.count("⟨")
     missing = [l for l in EXPECTED_LOCS if '"%s"' % l not in new]
     if missing:
         return "translator no longer finds the shared objects %r (renamed or restructured?)" % missing
@@ -63,14 +89,27 @@ def conflicts(res):
     return [(t.split("=")[0], t.split("=")[1].split("+")) for t in line[0][len("conflicts:"):].split(",") if "=" in t]
 
 
-def build_race(gen_src):
-    """go build -race of harness/cmd/c14 with the accessor table regenerated from REPO's sources."""
+def build_race(gen_src, ctor_src):
+    """go build -race of harness/cmd/c14 with the accessor and constructor tables regenerated from REPO's sources;
+    plain build of the history recorder harness/racex (a module of its own: porcupine)."""
     with C.Lock("go"):
         C.trim_gocache()
         d = C.harness_dir()
-        p = os.path.join(d, "cmd", "c14", "accessors_gen.go")
-        if not os.path.exists(p) or open(p).read() != gen_src:
-            with open(p, "w") as f: f.write(gen_src)
+        for name, src in (("accessors_gen.go", gen_src), ("constructors_gen.go", ctor_src)):
+            p = os.path.join(d, "cmd", "c14", name)
+            if not os.path.exists(p) or open(p).read() != src:
+                with open(p, "w") as f: f.write(src)
+        rx = os.path.join(d, "racex")
+        gm = open(os.path.join(rx, "go.mod")).read()
+        if C.REPO != "/repo" and "=> /repo" in gm:
+            open(os.path.join(rx, "go.mod"), "w").write(gm.replace("=> /repo", "=> " + C.REPO))
+        shutil.copyfile(os.path.join(C.REPO, "go.sum"), os.path.join(rx, "go.sum"))
+        hb = C.harness_bin("C14") + "-hist"
+        os.makedirs(os.path.dirname(hb), exist_ok=True)
+        if os.path.exists(hb): os.unlink(hb)
+        rc, out = C.run(["go", "build", "-o", hb, "."], cwd=rx, env=C.goenv(), timeout=1800)
+        if rc != 0:
+            return False, "history recorder harness/racex does not build:\n" + out
         binp = C.harness_bin("C14") + "-race"
         os.makedirs(os.path.dirname(binp), exist_ok=True)
         if os.path.exists(binp): os.unlink(binp)
@@ -79,7 +118,7 @@ def build_race(gen_src):
 
 
 def race_run(res, targets):
-    ok, out = build_race(res._accessors_src)
+    ok, out = build_race(res._accessors_src, res._constructors_src)
     if not ok:
         return None, "race harness does not build (accessor table regenerated from the sources):\n" + out[-3000:]
     rundir = os.path.join(C.BUILD, "run", "C14-%s-%d" % (res.tier, os.getpid()))
@@ -89,6 +128,16 @@ def race_run(res, targets):
                     env=C.goenv(), timeout=3600)
     if rc != 0:
         return None, "race harness failed rc=%d:\n%s" % (rc, out[-3000:])
+    # recorded histories of the registry and the configuration (harness/racex), appended to the same streams
+    rc, out = C.run([C.harness_bin("C14") + "-hist", "-seed", str(res.seed), "-tier", res.tier, "-out", rundir], env=C.goenv(), timeout=1200)
+    if rc != 0:
+        return None, "history recorder failed rc=%d:\n%s" % (rc, out[-3000:])
+    for a, b in (("hist-ops.txt", "ops.txt"), ("hist-impl.txt", "impl.txt")):
+        with open(os.path.join(rundir, b), "a") as f: f.write(open(os.path.join(rundir, a)).read())
+    try:
+        res.coverage["histories"] = json.load(open(os.path.join(rundir, "hist-stats.json")))
+    except Exception:
+        pass
     with open(os.path.join(rundir, "ops.txt")) as fin, open(os.path.join(rundir, "model.txt"), "w") as fout:
         rc, _ = C.run([C.driver_bin("C14")], stdin=fin, stdout=fout, timeout=600)
     if rc != 0:
@@ -99,9 +148,11 @@ def race_run(res, targets):
     # keep the race detector's reports next to the evidence
     keep = os.path.join(C.EVDIR, "replay")
     os.makedirs(keep, exist_ok=True)
+    res._reports = {}
     for f in os.listdir(rundir):
         if f.startswith("race-") or f.startswith("crash-"):
             shutil.copyfile(os.path.join(rundir, f), os.path.join(keep, "C14-%s-%s" % (res.seed, f)))
+            res._reports[f] = open(os.path.join(rundir, f), errors="replace").read()
     shutil.rmtree(rundir, ignore_errors=True)
     if not (len(ops) == len(impl) == len(model)):
         return None, "stream length mismatch"
@@ -111,7 +162,22 @@ def race_run(res, targets):
 _SEED = [1]
 
 
+def fn_in_report(fn, text):
+    """does a function of the lock-set table (pkg.Func / pkg.Recv.Method) occur in a frame of a race / crash report?"""
+    import re
+    parts = fn.split(".")
+    if len(parts) == 2:
+        pat = r"/%s\.%s(\[[^\]]*\])?\(" % (re.escape(parts[0]), re.escape(parts[1]))
+    else:
+        pat = r"/%s\.\(\*?%s(\[[^\]]*\])?\)\.%s\(" % (re.escape(parts[0]), re.escape(parts[1]), re.escape(parts[2]))
+    return re.search(pat, text) is not None
+
+
 def describe(op):
+    if C.op_body(op).split(" ")[1] == "hist":
+        return ("history recorded by harness/racex from the real code (goroutines released together before every call; <id>/<op>/<result>/<invocation time>/<response time>; "
+                "ops: A.k.v Add, G.k Get, H.k Has, R.k Remove, K Range keys, C Config(), Z SetConfig(nil), S.c.l SetConfig{CustomError:c, LocaleError:l}; 0 = nil). "
+                "Observation = porcupine's verdict against the Go transcription of the sequential specification; model = Conc.linearizable against Conc.apply; the property wants `lin`.")
     sc = C.op_body(op).split(" ")[2]
     fn = sc.replace(":", "_").replace("/", "_")
     txt = ("scenario %s of harness/cmd/c14 (built with -race; `cache:<loc>` / `target:<loc>` = the callable accessor functions of that "
@@ -149,9 +215,15 @@ def run(res):
         fns = {f for _, fs in targets for f in fs}
         # a targeted / generic scenario of a conflicting location that races or crashes, or any scenario whose race
         # report starts in one of the conflicting functions
+        def report_names_conflict(o):
+            sc = C.op_body(o).split(" ")[2].replace(":", "_").replace("/", "_")
+            txt = "".join(t for f, t in getattr(res, "_reports", {}).items() if f.endswith("-" + sc + ".txt"))
+            return any(fn_in_report(f, txt) for f in fns)
         confirmed = [o for o, i in zip(data[0], data[1])
-                     if (i != "norace ok" and C.op_body(o).split(" ")[2].partition(":")[2] in locs)
-                     or (i.startswith("RACE ") and i.split(" ")[1].split("/")[-1] in fns)]
+                     if C.op_body(o).split(" ")[1] == "race" and i != "norace ok" and (
+                        C.op_body(o).split(" ")[2].partition(":")[2] in locs
+                        or (i.startswith("RACE ") and i.split(" ")[1].split("/")[-1] in fns)
+                        or report_names_conflict(o))]
         if confirmed:
             res.notes.append("broken lock-set proof confirmed by a concrete execution: " + ", ".join(C.op_body(o).split(" ")[2] for o in confirmed))
         else:
